@@ -47,6 +47,10 @@ PROBES = [
     ("c07_guard_held_across_map_op", "C07", "counter/src/lib.rs",
      "                                    counts_table_arc_clone\n                                        .get_unchecked((min_mer % self.n_parts) as usize)\n                                        .entry(min_mer)\n                                        .and_modify(|v| *v += 1)\n                                        .or_insert(1);",
      "                                    let m = counts_table_arc_clone\n                                        .get_unchecked((min_mer % self.n_parts) as usize);\n                                    match m.get(&min_mer) {\n                                        Some(mut e) => {\n                                            let _ = m.len();\n                                            *e.get_mut() += 1;\n                                        }\n                                        None => {\n                                            let _ = m.insert(min_mer, 1);\n                                        }\n                                    }"),
+    # only visible when one k-mer occurs more than 65 535 times
+    ("c07_count_wraps_at_16_bits", "C07", "counter/src/lib.rs",
+     ".and_modify(|v| *v += 1)",
+     ".and_modify(|v| *v = (*v + 1) & 0xFFFF)"),
     ("c08_bin_by_ceil", "C08", "coverage/src/lib.rs",
      "(count as f64 / self.bin_size as f64).floor() as usize",
      "(count as f64 / self.bin_size as f64).ceil() as usize"),
